@@ -2,12 +2,15 @@
  * Source: C10 "reject every malformed string with the library's exception without crashing", DMS.hpp (components d ' " and
  * ':' separators, hemisphere letters, minutes and seconds below 60); C13 memory safety for every string.
  * Number parsing (istringstream) is not modelled: fractional values are arbitrary non-negative numbers. */
+/*@ capture-before (*ind) = ind1; :: cap_main=1:int cap_ip1=ipieces[1]:double cap_ip2=ipieces[2]:double cap_fp1=fpieces[1]:double cap_fp2=fpieces[2]:double */
+/*@ ghost-init */
+cap_main = 0;
 /*@ ghost */
 #define ID_LEN (dmsa->len)
 /*@ clause pre.string src=call-site */
 __CPROVER_requires(verif_thrown == 0 && dmsa->len >= 0 && dmsa->len < VERIF_STRCAP && __CPROVER_r_ok(dmsa->p, VERIF_STRCAP) && dmsa->p[dmsa->len] == 0)
 /*@ clause frame src=property props=C13,C14 */
-__CPROVER_assigns(*ind, verif_thrown)
+__CPROVER_assigns(*ind, verif_thrown, cap_main, cap_ip1, cap_ip2, cap_fp1, cap_fp2)
 /*@ clause post.no_other_exception src=property props=C13,C10 */
 __CPROVER_ensures(!verif_thrown_other)
 /*@ clause post.ind_values src=header props=C10 */
@@ -22,3 +25,7 @@ __CPROVER_ensures(verif_thrown || *ind == 0 || ID_LEN == 0 ||
               : (VERIF_UP(dmsa->p[0]) == 'E' || VERIF_UP(dmsa->p[0]) == 'W' || VERIF_UP(dmsa->p[ID_LEN - 1]) == 'E' || VERIF_UP(dmsa->p[ID_LEN - 1]) == 'W')))
 /*@ clause post.empty_rejected src=property props=C10 */
 __CPROVER_ensures(ID_LEN != 0 || verif_thrown || *ind == 0)
+/*@ clause post.minutes_seconds_range src=header props=C10 */
+/* DMS.hpp: "4:60" and "4:59:60" are illegal: when the string is accepted as degrees/minutes/seconds (cap_main: the point where the
+   result flag is stored), the integer parts of minutes and seconds are below 60 and their values do not exceed 60 */
+__CPROVER_ensures(verif_thrown || !cap_main || (cap_ip1 < 60.0 && cap_ip2 < 60.0 && cap_fp1 <= 60.0 && cap_fp2 <= 60.0))
